@@ -178,7 +178,8 @@ fn run_pipeline(cfg: &HookCfg, log: &Rc<RefCell<HookLog>>, ir: &mut Context, pm:
                 ir.verify_ssa_dominance = cfg.dominance;
             }
             Err(e) => {
-                log.borrow_mut().rt.push(RtEvent { stage: "final-substitute".into(), kind: "parse-failure".into(), detail: e.to_string() });
+                let msg = e.to_string();
+                log.borrow_mut().rt.push(RtEvent { stage: "final-substitute".into(), kind: "parse-failure".into(), detail: format!("{}\u{1}{}", parse_failure_class(&text, &msg), msg) });
                 return Err(e);
             }
         }
@@ -279,6 +280,123 @@ fn note_kinds(text: &str, log: &mut HookLog) {
     }
 }
 
+/// What kind of line of printed IR is this (for classifying where a parse failure / difference is)?
+pub fn line_kind(line: &str) -> String {
+    let l = line.trim();
+    let first = l.split_whitespace().next().unwrap_or("");
+    if l.is_empty() {
+        return "empty-line".into();
+    }
+    if l.starts_with('!') {
+        return "metadata".into();
+    }
+    if l.ends_with("):") || l.ends_with("):,") || (l.contains('(') && l.trim_end().ends_with(':')) {
+        return "block-header".into();
+    }
+    if l.contains(" fn ") || l.starts_with("fn ") {
+        return "fn-header".into();
+    }
+    // `vN = op ...`
+    let toks: Vec<&str> = l.split_whitespace().collect();
+    if toks.len() >= 3 && toks[1] == "=" {
+        return format!("instr:{}", toks[2].trim_end_matches(|c: char| !c.is_ascii_alphanumeric() && c != '_'));
+    }
+    match first {
+        "global" | "local" | "storage_key" | "script" | "contract" | "library" | "predicate" | "pub" | "entry" | "entry_orig" | "}" => first.to_string(),
+        _ => format!("instr:{}", first.trim_end_matches(|c: char| !c.is_ascii_alphanumeric() && c != '_')),
+    }
+}
+
+fn erase_names(text: &str) -> String {
+    // v123v4 / v12 -> v ; !12 -> !
+    let b = text.as_bytes();
+    let mut out = String::with_capacity(text.len());
+    let is_ident = |c: u8| c.is_ascii_alphanumeric() || c == b'_';
+    let mut i = 0;
+    while i < b.len() {
+        let c = b[i];
+        let at_boundary = i == 0 || !is_ident(b[i - 1]);
+        if c == b'v' && at_boundary && i + 1 < b.len() && b[i + 1].is_ascii_digit() {
+            let mut j = i + 1;
+            while j < b.len() && (b[j].is_ascii_digit() || (b[j] == b'v' && j + 1 < b.len() && b[j + 1].is_ascii_digit())) {
+                j += 1;
+            }
+            if j >= b.len() || !is_ident(b[j]) {
+                out.push('v');
+                i = j;
+                continue;
+            }
+        }
+        if c == b'!' && i + 1 < b.len() && b[i + 1].is_ascii_digit() {
+            let mut j = i + 1;
+            while j < b.len() && b[j].is_ascii_digit() {
+                j += 1;
+            }
+            out.push('!');
+            i = j;
+            continue;
+        }
+        out.push(c as char);
+        i += 1;
+    }
+    out
+}
+
+fn differing_lines(a: &str, b: &str) -> usize {
+    let (la, lb): (Vec<&str>, Vec<&str>) = (a.lines().collect(), b.lines().collect());
+    la.iter().zip(lb.iter()).filter(|(x, y)| x != y).count() + la.len().abs_diff(lb.len())
+}
+
+/// Classes of differences between two printed modules: successive normalisations are applied
+/// and every one that removes differences names a class; what is left names the kind of the
+/// first differing line. Returns class names joined by '|'.
+pub fn difference_classes(t1: &str, t2: &str) -> String {
+    let mut classes: Vec<String> = vec![];
+    let (mut a, mut b) = (t1.to_string(), t2.to_string());
+    let steps: Vec<(&str, Box<dyn Fn(&str) -> String>)> = vec![
+        ("value-or-metadata-numbering-order", Box::new(|t: &str| erase_names(t))),
+        ("position-of-constant-definitions", Box::new(|t: &str| t.lines().filter(|l| !l.trim_start().starts_with("v = const ")).collect::<Vec<_>>().join("\n"))),
+        ("mutability-flag-of-argument", Box::new(|t: &str| t.replace("mut ", ""))),
+        (
+            "metadata-entries",
+            Box::new(|t: &str| t.lines().filter(|l| !l.trim_start().starts_with('!')).map(|l| l.split(", !").next().unwrap_or(l)).collect::<Vec<_>>().join("\n")),
+        ),
+        ("asm-body-layout", Box::new(|t: &str| t.split_whitespace().collect::<Vec<_>>().join(" "))),
+    ];
+    for (name, f) in steps {
+        if a == b {
+            break;
+        }
+        let (na, nb) = (f(&a), f(&b));
+        if na == nb || differing_lines(&na, &nb) < differing_lines(&a, &b) {
+            classes.push(name.to_string());
+        }
+        a = na;
+        b = nb;
+    }
+    if a != b {
+        // everything is one line of tokens now: kind of the first differing token pair
+        let (ta, tb): (Vec<&str>, Vec<&str>) = (a.split(' ').collect(), b.split(' ').collect());
+        let k = ta.iter().zip(tb.iter()).position(|(x, y)| x != y).unwrap_or(ta.len().min(tb.len()));
+        let ctx = |t: &Vec<&str>| t[k.saturating_sub(2)..(k + 2).min(t.len())].iter().map(|w| line_shape(w)).collect::<Vec<_>>().join(" ");
+        classes.push(format!("other:`{}` vs `{}`", ctx(&ta), ctx(&tb)));
+    }
+    classes.join("|")
+}
+
+/// "error at L:C: expected ..., found ...": class = kind of line L of the text + what was expected
+pub fn parse_failure_class(text: &str, msg: &str) -> String {
+    let pos = msg.split("error at ").nth(1).unwrap_or("");
+    let line_no: usize = pos.split(':').next().and_then(|x| x.trim().parse().ok()).unwrap_or(0);
+    let col: usize = pos.split(':').nth(1).and_then(|x| x.trim().parse().ok()).unwrap_or(0);
+    let line = text.lines().nth(line_no.saturating_sub(1)).unwrap_or("");
+    let expected: String = msg.split("expected ").nth(1).unwrap_or("").chars().take(24).collect();
+    // the token the parser stopped at
+    let at: String = line.chars().skip(col.saturating_sub(1)).take_while(|c| !c.is_whitespace() && *c != ',' && *c != '(').take(16).collect();
+    let at_end = col > line.trim_end().len();
+    format!("{}:{}:expected {}", line_kind(line), if at_end { "<end-of-line>".to_string() } else { line_shape(&at) }, line_shape(&expected))
+}
+
 fn roundtrip(ir: &Context, stage: &str, log: &Rc<RefCell<HookLog>>) {
     let t1 = sway_ir::printer::to_string(ir);
     {
@@ -291,9 +409,8 @@ fn roundtrip(ir: &Context, stage: &str, log: &Rc<RefCell<HookLog>>) {
     let m1 = match sway_ir::parser::parse(&t1, ir.source_engine, ir.experimental, ir.backtrace) {
         Ok(m) => m,
         Err(e) => {
-            // locate the offending line from the "found" fragment when possible
             let msg = e.to_string();
-            push("parse-failure", msg);
+            push("parse-failure", format!("{}\u{1}{}", parse_failure_class(&t1, &msg), msg));
             return;
         }
     };
@@ -302,7 +419,7 @@ fn roundtrip(ir: &Context, stage: &str, log: &Rc<RefCell<HookLog>>) {
         if canonical_names(&t1) == canonical_names(&t2) {
             push("renumbered", String::new());
         } else {
-            push("text-differs", first_diff_line(&canonical_names(&t1), &canonical_names(&t2)));
+            push("text-differs", format!("{}\u{1}{}", difference_classes(&t1, &t2), first_diff_line(&canonical_names(&t1), &canonical_names(&t2))));
             return;
         }
     }
@@ -310,11 +427,14 @@ fn roundtrip(ir: &Context, stage: &str, log: &Rc<RefCell<HookLog>>) {
         Ok(m2) => {
             let t3 = sway_ir::printer::to_string(&m2);
             if t3 != t2 {
-                push("second-roundtrip-differs", first_diff_line(&t2, &t3));
+                push("second-roundtrip-differs", format!("{}\u{1}{}", difference_classes(&t2, &t3), first_diff_line(&t2, &t3)));
             } else if t2 == t1 {
                 push("ok", String::new());
             }
         }
-        Err(e) => push("parse-failure-second", e.to_string()),
+        Err(e) => {
+            let msg = e.to_string();
+            push("parse-failure-second", format!("{}\u{1}{}", parse_failure_class(&t2, &msg), msg));
+        }
     }
 }
